@@ -15,12 +15,24 @@ use serde::{Deserialize, Serialize};
 
 use crate::{model::ValueTag, FromPrimitive as _};
 
+// fail with InvalidData instead of panicking when the value is shorter than its syntax requires
 #[inline]
-fn get_len_string(data: &mut Bytes) -> String {
+fn ensure_len(data: &Bytes, len: usize) -> io::Result<()> {
+    if data.remaining() < len {
+        Err(io::ErrorKind::InvalidData.into())
+    } else {
+        Ok(())
+    }
+}
+
+#[inline]
+fn get_len_string(data: &mut Bytes) -> io::Result<String> {
+    ensure_len(data, 2)?;
     let len = data.get_u16() as usize;
+    ensure_len(data, len)?;
     let s = String::from_utf8_lossy(&data[0..len]).into_owned();
     data.advance(len);
-    s
+    Ok(s)
 }
 
 /// IPP attribute values as defined in [RFC 8010](https://tools.ietf.org/html/rfc8010)
@@ -117,48 +129,66 @@ impl IppValue {
         };
 
         let value = match ipp_tag {
-            ValueTag::Integer => IppValue::Integer(data.get_i32()),
-            ValueTag::Enum => IppValue::Enum(data.get_i32()),
+            ValueTag::Integer => {
+                ensure_len(&data, 4)?;
+                IppValue::Integer(data.get_i32())
+            }
+            ValueTag::Enum => {
+                ensure_len(&data, 4)?;
+                IppValue::Enum(data.get_i32())
+            }
             ValueTag::OctetStringUnspecified => IppValue::OctetString(String::from_utf8_lossy(&data).into_owned()),
             ValueTag::TextWithoutLanguage => IppValue::TextWithoutLanguage(String::from_utf8_lossy(&data).into_owned()),
             ValueTag::NameWithoutLanguage => IppValue::NameWithoutLanguage(String::from_utf8_lossy(&data).into_owned()),
             ValueTag::TextWithLanguage => IppValue::TextWithLanguage {
-                language: get_len_string(&mut data),
-                text: get_len_string(&mut data),
+                language: get_len_string(&mut data)?,
+                text: get_len_string(&mut data)?,
             },
             ValueTag::NameWithLanguage => IppValue::NameWithLanguage {
-                language: get_len_string(&mut data),
-                name: get_len_string(&mut data),
+                language: get_len_string(&mut data)?,
+                name: get_len_string(&mut data)?,
             },
             ValueTag::Charset => IppValue::Charset(String::from_utf8_lossy(&data).into_owned()),
             ValueTag::NaturalLanguage => IppValue::NaturalLanguage(String::from_utf8_lossy(&data).into_owned()),
             ValueTag::Uri => IppValue::Uri(String::from_utf8_lossy(&data).into_owned()),
             ValueTag::UriScheme => IppValue::UriScheme(String::from_utf8_lossy(&data).into_owned()),
-            ValueTag::RangeOfInteger => IppValue::RangeOfInteger {
-                min: data.get_i32(),
-                max: data.get_i32(),
-            },
-            ValueTag::Boolean => IppValue::Boolean(data.get_u8() != 0),
+            ValueTag::RangeOfInteger => {
+                ensure_len(&data, 8)?;
+                IppValue::RangeOfInteger {
+                    min: data.get_i32(),
+                    max: data.get_i32(),
+                }
+            }
+            ValueTag::Boolean => {
+                ensure_len(&data, 1)?;
+                IppValue::Boolean(data.get_u8() != 0)
+            }
             ValueTag::Keyword => IppValue::Keyword(String::from_utf8_lossy(&data).into_owned()),
             ValueTag::MimeMediaType => IppValue::MimeMediaType(String::from_utf8_lossy(&data).into_owned()),
-            ValueTag::DateTime => IppValue::DateTime {
-                year: data.get_u16(),
-                month: data.get_u8(),
-                day: data.get_u8(),
-                hour: data.get_u8(),
-                minutes: data.get_u8(),
-                seconds: data.get_u8(),
-                deci_seconds: data.get_u8(),
-                utc_dir: data.get_u8() as char,
-                utc_hours: data.get_u8(),
-                utc_mins: data.get_u8(),
-            },
+            ValueTag::DateTime => {
+                ensure_len(&data, 11)?;
+                IppValue::DateTime {
+                    year: data.get_u16(),
+                    month: data.get_u8(),
+                    day: data.get_u8(),
+                    hour: data.get_u8(),
+                    minutes: data.get_u8(),
+                    seconds: data.get_u8(),
+                    deci_seconds: data.get_u8(),
+                    utc_dir: data.get_u8() as char,
+                    utc_hours: data.get_u8(),
+                    utc_mins: data.get_u8(),
+                }
+            }
             ValueTag::MemberAttrName => IppValue::MemberAttrName(String::from_utf8_lossy(&data).into_owned()),
-            ValueTag::Resolution => IppValue::Resolution {
-                cross_feed: data.get_i32(),
-                feed: data.get_i32(),
-                units: data.get_i8(),
-            },
+            ValueTag::Resolution => {
+                ensure_len(&data, 9)?;
+                IppValue::Resolution {
+                    cross_feed: data.get_i32(),
+                    feed: data.get_i32(),
+                    units: data.get_i8(),
+                }
+            }
             ValueTag::NoValue => IppValue::NoValue,
             _ => IppValue::Other { tag: value_tag, data },
         };
